@@ -83,6 +83,10 @@ def fact_sig(f):
         return 'req|%s|%s|%s' % (f['op'], f['arch'], f.get('std'))
     if t == 'compile':
         return 'compile|%s|%s' % (f['what'], f.get('cfg'))
+    if t == 'gdbview':
+        def sh(x):
+            return '%s/%s/%s' % (x.get('sz'), x.get('cap'), x.get('inl')) if x.get('p') else '-'
+        return 'gdb|%s|%s|%s|%s' % (f['cfg'], f['op'], sh(f['pA']), sh(f['pB']))
     return json.dumps(f, sort_keys=True)[:80]
 
 
@@ -298,10 +302,337 @@ def c13_facts(tier, seed):
     return res
 
 
+# ------------------------------------------------------------------------------------------------ C17
+def _equiv(ref_trace, oth_trace, wd, tag):
+    md = os.path.join(wd, 'md_' + tag)
+    rc, out = P.java_tlc(['-workers', '1', '-metadir', md, '-config', os.path.join(P.SPEC, 'Trace.cfg'),
+                          os.path.join(P.SPEC, 'Equiv.tla')], env={'TRACE': ref_trace, 'TRACE2': oth_trace}, timeout=3600, xmx='6g')
+    shutil.rmtree(md, ignore_errors=True)
+    viol, hits, notes, end = [], 0, 0, None
+    for v in tlaparse.values(out):
+        if not v:
+            continue
+        if v[0] == 'V':
+            viol.append((v[1], v[2], v[3]))
+        elif v[0] == 'H':
+            hits += 1
+        elif v[0] == 'N':
+            notes += 1
+        elif v[0] == 'END':
+            end = v[1]
+    if 'Model checking completed. No error has been found.' not in out or end is None:
+        open(os.path.join(wd, 'tlc_%s.out' % tag), 'w').write(out)
+        raise RuntimeError('TLC equivalence check failed (%s): see %s\n%s' % (tag, wd, out[-2500:]))
+    return viol, hits, notes
+
+
+def c17(tier, seed):
+    import jobs as Jb
+    import suites
+    import random
+    rnd = random.Random(seed * 31 + 5)
+    if tier == 'quick':
+        builds = [('g++', 'c++17', []), ('g++', 'c++11', []), ('g++', 'c++20', []), ('g++', 'c++23', []), ('clang++', 'c++14', []),
+                  ('g++', 'c++20', ['GCH_DISABLE_CONCEPTS']), ('clang++', 'c++20', [])]
+        corpora = [('one N=2 nothrow-move', suites.one(2), suites.drv(2, elem=suites.NT), 500, 1),
+                   ('two N=2,2 POCMA+POCS unequal', suites.two(2, 2, **suites.traits_mc(0, 1, 1, 0)), suites.drv(2, 2, elem=suites.TM, POCMA=1, POCS=1), 400, 0),
+                   ('order len<=3 N=1,3', suites.order(3), suites.drv(1, 3, elem=suites.TRIV), 400, 0)]
+    else:
+        builds = [('g++', 'c++17', [])] + [('g++', s, []) for s in ('c++11', 'c++14', 'c++20', 'c++23')] + \
+                 [('clang++', s, []) for s in ('c++11', 'c++14', 'c++17', 'c++20', 'c++2b')] + \
+                 [('clang++-16', 'c++20', []), ('clang++-16', 'c++2b', []), ('g++', 'c++20', ['GCH_DISABLE_CONCEPTS']),
+                  ('clang++', 'c++20', ['GCH_DISABLE_CONCEPTS']), ('g++', 'c++23', ['GCH_DISABLE_CONCEPTS'])]
+        corpora = [('one N=2 nothrow-move', suites.one(2), suites.drv(2, elem=suites.NT), 3000, 1),
+                   ('one N=0 throwing-move', suites.one(0, nothrow=False), suites.drv(0, elem=suites.TM), 2000, 1),
+                   ('one N=3 trivially copyable', suites.one(3), suites.drv(3, elem=suites.TRIV), 3000, 0),
+                   ('two N=2,2 POCMA+POCS unequal', suites.two(2, 2, **suites.traits_mc(0, 1, 1, 0)), suites.drv(2, 2, elem=suites.TM, POCMA=1, POCS=1), 3000, 1),
+                   ('two N=3,2 always-equal', suites.two(3, 2, **suites.traits_mc(0, 0, 0, 1)), suites.drv(3, 2, elem=suites.NT, AE=1), 3000, 0),
+                   ('two N=2,2 std::allocator', suites.two(2, 2, IsStd=True, allocids=(0,)), suites.drv(2, 2, elem=suites.NT, ALLOC=0), 2000, 0),
+                   ('order len<=3 N=1,3', suites.order(3), suites.drv(1, 3, elem=suites.TRIV), None, 0),
+                   ('max_size()=5 N=2', suites.mx(2, 5), suites.drv(2, elem=suites.NT, MAXSZ=5), 2000, 0)]
+    wd = os.path.join(P.CACHE, 'c17', P.sha('c17', tier, seed, P.header_sha(), P.spec_sha(), P.file_sha(os.path.join(P.HARNESS, 'driver.cpp'))))
+    resf = os.path.join(wd, 'result.json')
+    with P.Lock(wd):
+        if os.path.exists(resf):
+            return json.load(open(resf))
+        os.makedirs(wd, exist_ok=True)
+        tasks = []
+        for ci, (cname, mc, dr, n, fmode) in enumerate(corpora):
+            st = P.gen_stimuli(mc)
+            lines = open(st['path']).readlines()
+            if n is not None and len(lines) > n:
+                lines = [lines[i] for i in sorted(rnd.sample(range(len(lines)), n))]
+            sf = os.path.join(wd, 'stim%d.txt' % ci)
+            open(sf, 'w').writelines(lines)
+            for bi, (cxx, std, defs) in enumerate(builds):
+                d = dict(dr)
+                d.update(cxx=cxx, std=std, defs=defs)
+                tasks.append((ci, bi, cname, sf, d, fmode, len(lines)))
+
+        def run(t):
+            ci, bi, cname, sf, d, fmode, n = t
+            b = P.build_driver(d)
+            tf = os.path.join(wd, 'trace_%d_%d.ndjson' % (ci, bi))
+            Jb.run_driver(b['exe'], sf, tf, fmode)
+            viol, hits, end = P.validate_trace(tf, wd, 'v%d_%d' % (ci, bi))
+            sigs, nlines, violations, ops = P.analyse(tf, viol, hits, b['name'])
+            return (ci, bi, tf, b['name'], violations, ops)
+        outs = _run_many(run, tasks)
+        traces = {(ci, bi): (tf, name) for ci, bi, tf, name, _, _ in outs}
+        l1_viol = [v for o in outs for v in o[4]]
+        pairs = [(ci, bi) for (ci, bi) in traces if bi != 0]
+
+        def cmp(p):
+            ci, bi = p
+            return (ci, bi) + _equiv(traces[(ci, 0)][0], traces[(ci, bi)][0], wd, 'e%d_%d' % (ci, bi))
+        eq = _run_many(cmp, pairs)
+        violations, sigs, programs, compared, notes = [], set(), 0, 0, 0
+        for (ci, bi, viol, hits, nts) in eq:
+            programs += corpora[ci][3] or 0
+            compared += hits
+            notes += nts
+            sigs.add(h12('%s|%s' % (corpora[ci][0], traces[(ci, bi)][1])))
+            ref_lines = open(traces[(ci, 0)][0]).read().split('\n')
+            oth_lines = open(traces[(ci, bi)][0]).read().split('\n')
+            for (ln, p, n) in viol[:50]:
+                a = json.loads(ref_lines[ln - 1]) if ln - 1 < len(ref_lines) and ref_lines[ln - 1] else {}
+                violations.append(dict(property='C17', check=n, op=a.get('op'), cfg='%s vs %s' % (traces[(ci, 0)][1], traces[(ci, bi)][1]),
+                                       k=a.get('k'), fk=a.get('fk'), pre=None, kind='equiv', out=a.get('out'), a=a.get('a'),
+                                       extra=dict(ref=ref_lines[ln - 1][:1500], other=oth_lines[ln - 1][:1500] if ln - 1 < len(oth_lines) else None,
+                                                  corpus=corpora[ci][0], id=a.get('id'))))
+        # L1 violations inside any build's trace are C17-relevant only through their own properties; report count
+        nprog = sum(t[6] for t in tasks)
+        res = dict(lines=compared, ops=compared, restarts=0, skipped=0,
+                   sample=[open(traces[(0, 1)][0]).readlines()[5][:1000]] if (0, 1) in traces else [],
+                   sigs={'C17': sorted(sigs)}, nlines={'C17': compared}, violations=violations, stims=nprog, stims_total=nprog, mc=None,
+                   drv='c17', drvconf=None, fmode=0,
+                   label='equivalence: %d corpora x %d builds (reference %s), %d call results compared; %d faulted calls not comparable (different fallible-event count)'
+                         % (len(corpora), len(builds), builds[0][1], compared, notes),
+                   coverage_extra=dict(programs=nprog, disagreements_checked=compared,
+                                       builds=['%s -std=%s %s' % (c, s, ' '.join(d)) for c, s, d in builds],
+                                       l1_violations_in_any_build=len(l1_viol)))
+        json.dump(res, open(resf, 'w'))
+        return res
+
+
+# ------------------------------------------------------------------------------------------------ C08
+CX_CODES = ("ctor_def ctor_n ctor_nv ctor_rng ctor_il ctor_copy ctor_move dtor push_back push_back_m emplace_back_c emplace_back_v insert "
+            "insert_m emplace_c emplace_v insert_n insert_rng insert_il append_rng append_il assign_n assign_rng assign_il opeq_il erase "
+            "erase_rng pop_back clear resize resize_v reserve shrink at assign_copy assign_copy_f assign_move assign_move_f swap append_copy "
+            "append_move cmp ctor_gen").split()
+CX_RESULT_CHECKS = {'C01', 'C11', 'C16'}     # what a cx trace can be checked for against L1 (the rest needs run-time-only observations)
+
+
+def cx_program(line):
+    body = line.split('|', 1)[1].strip()
+    ops = []
+    for o in body.split(' ; '):
+        t = o.split()
+        name, d, sname = t[0], t[1], t[2]
+        a = [int(x) for x in t[3:]]
+        if name not in CX_CODES or any(abs(x) > 100 for x in a):
+            return None
+        if name == 'at' and False:
+            return None
+        ops.append('{C_%s,%d,%d,%d,{%s}}' % (name, 0 if d == 'A' else 1, -1 if sname == '-' else (0 if sname == 'A' else 1), len(a),
+                                            ','.join(str(x) for x in (a + [0, 0, 0, 0])[:4])))
+    if not ops or len(ops) > 10:
+        return None
+    return ops
+
+
+def cx_include(progs):
+    out, tab = [], []
+    for k, (line, ops) in enumerate(progs):
+        out.append('constexpr Op P_%d[] = {%s};\nconstexpr Digest D_%d = run (P_%d, %d);' % (k, ','.join(ops), k, k, len(ops)))
+        tab.append('{P_%d,%d,&D_%d}' % (k, len(ops), k))
+    out.append('struct Entry { const Op *prog; int n; const Digest *ct; };\nstatic const Entry TAB[] = {%s};\nenum { NPROG = %d };'
+               % (',\n'.join(tab) if tab else '{0,0,0}', len(tab)))
+    return '\n'.join(out) + '\n'
+
+
+def cx_run(task):
+    (label, lines, NA, NB, elem, cxx, std, wd) = task
+    import re
+    progs = [(ln, cx_program(ln)) for ln in lines]
+    progs = [(ln, o) for ln, o in progs if o]
+    rejected = []      # programs the compiler refuses as constant expressions
+    d = os.path.join(wd, P.sha(label, NA, NB, elem, cxx, std))
+    os.makedirs(d, exist_ok=True)
+    exe = os.path.join(d, 'cx')
+    for attempt in range(6):
+        open(os.path.join(d, 'cx_progs.inc'), 'w').write(cx_include(progs))
+        cmd = [cxx, '-std=' + std, '-O0', '-w', '-I', INC, '-I', d, '-DCX_NA=%d' % NA, '-DCX_NB=%d' % NB, '-DCX_ELEM=%d' % elem]
+        cmd += ['-fconstexpr-ops-limit=2000000000', '-fconstexpr-loop-limit=10000000'] if cxx.startswith('g++') else ['-fconstexpr-steps=2000000000']
+        p = subprocess.run(cmd + ['-o', exe, os.path.join(P.HARNESS, 'cx.cpp')], stdout=subprocess.PIPE, stderr=subprocess.STDOUT)
+        if p.returncode == 0:
+            break
+        log = p.stdout.decode('utf-8', 'replace')
+        bad = sorted({int(x) for x in re.findall(r"\bD_(\d+)\b", log)})
+        if not bad:
+            raise RuntimeError('cx.cpp does not compile (%s): %s' % (label, log[-2500:]))
+        for k in bad:
+            m = re.search(r"[^\n]*\bD_%d\b[^\n]*\n(?:[^\n]*\n){0,6}" % k, log)
+            rejected.append((progs[k][0].strip(), (m.group(0) if m else log[:800])[:1200]))
+        progs = [pr for k, pr in enumerate(progs) if k not in set(bad)]
+    else:
+        raise RuntimeError('cx.cpp: too many rejected programs (%s)' % label)
+    ct = os.path.join(d, 'ct.ndjson')
+    rt = os.path.join(d, 'rt.ndjson')
+    open(ct, 'wb').write(subprocess.run([exe, 'c'], stdout=subprocess.PIPE).stdout)
+    open(rt, 'wb').write(subprocess.run([exe, 'r'], stdout=subprocess.PIPE).stdout)
+    # (1) ct == rt under the mask of unspecified results
+    md = os.path.join(d, 'md')
+    rc, out = P.java_tlc(['-workers', '1', '-metadir', md, '-config', os.path.join(P.SPEC, 'Trace.cfg'), os.path.join(P.SPEC, 'CxEquiv.tla')],
+                         env={'TRACE': ct, 'TRACE2': rt}, timeout=3600, xmx='4g')
+    shutil.rmtree(md, ignore_errors=True)
+    if 'Model checking completed. No error has been found.' not in out or '"END"' not in out:
+        raise RuntimeError('TLC CxEquiv failed (%s): %s' % (label, out[-2000:]))
+    eqv = [v for v in tlaparse.values(out) if v and v[0] == 'V']
+    compared = sum(1 for v in tlaparse.values(out) if v and v[0] == 'H')
+    # (2) both digests against the L1 result checks
+    l1 = []
+    for tag, tf in (('consteval', ct), ('runtime', rt)):
+        viol, hits, end = P.validate_trace(tf, d, tag)
+        sigs, nlines, violations, ops = P.analyse(tf, viol, hits, 'cx-%s-%s' % (tag, label))
+        l1 += [v for v in violations if v['property'] in CX_RESULT_CHECKS]
+    ctl = open(ct).read().split('\n')
+    rtl = open(rt).read().split('\n')
+    vio = []
+    for (_, ln, p, n) in eqv:
+        a = json.loads(ctl[ln - 1])
+        pid = int(a['id'][1:])
+        vio.append(dict(property='C08', check=n, op=a.get('op'), cfg=label, k=None, fk=None, pre=None, kind='cx', out=None, a=a.get('a'),
+                        extra=dict(program=progs[pid][0].strip(), consteval=ctl[ln - 1][:1200], runtime=rtl[ln - 1][:1200], task=[NA, NB, elem, cxx, std])))
+    for v in l1:
+        pid = int(v['id'][1:])
+        vio.append(dict(property='C08', check='result differs from the std::vector oracle (%s): %s' % (v['cfg'].split('-')[1], v['check']), op=v['op'], cfg=label,
+                        k=None, fk=None, pre=v['pre'], kind='cx', out=None, a=v['a'], extra=dict(program=progs[pid][0].strip(), task=[NA, NB, elem, cxx, std])))
+    for (prog, msg) in rejected:
+        vio.append(dict(property='C08', check='not a constant expression (compiler diagnostic)', op=prog.split(';')[-1].split()[0], cfg=label, k=None, fk=None,
+                        pre=None, kind='cx', out=None, a=None, extra=dict(program=prog, diagnostic=msg, task=[NA, NB, elem, cxx, std])))
+    sample = [dict(program=progs[0][0].strip(), consteval=ctl[3][:600])] if progs else []
+    return dict(label=label, programs=len(progs) + len(rejected), compared=compared, violations=vio, sample=sample,
+                sigs=[h12(label + pr[0]) for pr in progs])
+
+
+def c08(tier, seed):
+    import suites
+    import random
+    rnd = random.Random(seed * 101 + 3)
+    if tier == 'quick':
+        comps = [('g++', 'c++20'), ('clang++', 'c++20')]
+        cfgs = [(2, 2, 0), (0, 2, 1), (3, 2, 1)]
+        n_one, n_two = 350, 350
+    else:
+        comps = [('g++', 'c++20'), ('g++', 'c++23'), ('clang++', 'c++20'), ('clang++-16', 'c++20'), ('clang++-16', 'c++2b')]
+        cfgs = [(2, 2, 0), (2, 2, 1), (0, 0, 1), (0, 2, 1), (3, 2, 1), (2, 3, 0), (0, 0, 0)]
+        n_one, n_two = 3000, 3000
+    wd = os.path.join(P.CACHE, 'c08', P.sha('c08', tier, seed, P.header_sha(), P.spec_sha(), P.file_sha(os.path.join(P.HARNESS, 'cx.cpp')),
+                                             P.file_sha(os.path.join(P.ROOT, 'lib', 'extras.py'))))
+    resf = os.path.join(wd, 'result.json')
+    with P.Lock(wd):
+        if os.path.exists(resf):
+            return json.load(open(resf))
+        os.makedirs(wd, exist_ok=True)
+        tasks = []
+        for (NA, NB, elem) in cfgs:
+            lines = []
+            st1 = P.gen_stimuli(suites.one(NA, IsStd=True))
+            l1 = open(st1['path']).readlines()
+            lines += rnd.sample(l1, min(n_one, len(l1)))
+            st2 = P.gen_stimuli(suites.two(NA, NB, IsStd=True, allocids=(0,)))
+            l2 = open(st2['path']).readlines()
+            lines += rnd.sample(l2, min(n_two, len(l2)))
+            for (cxx, std) in comps:
+                for chunk in range(0, len(lines), 1500):
+                    tasks.append(('N%d,%d-%s-%s-%s-%d' % (NA, NB, 'lit' if elem else 'int', cxx, std, chunk), lines[chunk:chunk + 1500], NA, NB, elem, cxx, std, wd))
+        outs = _run_many(cx_run, tasks, workers=max(2, P.NCPU // 2))
+        programs = sum(o['programs'] for o in outs)
+        compared = sum(o['compared'] for o in outs)
+        violations = [v for o in outs for v in o['violations']]
+        sigs = sorted({s for o in outs for s in o['sigs']})
+        res = dict(lines=compared, ops=compared, restarts=0, skipped=0, sample=[json.dumps(outs[0]['sample'][0])] if outs and outs[0]['sample'] else [],
+                   sigs={'C08': sigs}, nlines={'C08': compared}, violations=violations, stims=programs, stims_total=programs, mc=None,
+                   drv='cx', drvconf=None, fmode=0,
+                   label='constant evaluation: %d programs (paths of the MC instances, N pairs %s, int and a non-trivial literal class) under %s; %d call results compared'
+                         % (programs, sorted({(c[0], c[1]) for c in cfgs}), comps, compared),
+                   coverage_extra=dict(programs=programs, disagreements_checked=compared))
+        json.dump(res, open(resf, 'w'))
+        return res
+
+
+# ------------------------------------------------------------------------------------------------ C20
+def gdb_run(task):
+    (label, lines, drvconf, wd) = task
+    d = dict(drvconf)
+    d['GDB'] = 1
+    b = P.build_driver(d)
+    td = os.path.join(wd, P.sha(label))
+    os.makedirs(td, exist_ok=True)
+    sf = os.path.join(td, 'stim.txt')
+    open(sf, 'w').writelines(lines)
+    env = dict(os.environ)
+    env.update(GDB_ARGS='%s 0 0 0' % sf, GDB_OUT=os.path.join(td, 'gdb.out'), GDB_TRACE=os.path.join(td, 'trace.ndjson'), REPO_ROOT=P.REPO)
+    p = subprocess.run(['gdb', '-batch', '-nx', '-x', os.path.join(P.ROOT, 'lib', 'gdb_script.py'), b['exe']], stdout=subprocess.PIPE,
+                       stderr=subprocess.STDOUT, env=env, timeout=3000)
+    probe = {}
+    for ln in open(env['GDB_TRACE']):
+        if '"t":"op"' in ln:
+            r = json.loads(ln)
+            probe[(r['id'], r['i'])] = r
+    rows = []
+    ngdb = 0
+    for ln in open(env['GDB_OUT']):
+        g = json.loads(ln)
+        if g.get('t') != 'gdb':
+            raise RuntimeError('gdb script error (%s): %s\n%s' % (label, ln[:300], p.stdout.decode()[-1500:]))
+        ngdb += 1
+        r = probe.get((g['id'], g['i']))
+        if r is None or 'post' not in r:
+            continue
+        f = dict(t='gdbview', id=g['id'], i=g['i'], op=r['op'], cfg=b['name'], pA=r['post']['A'], pB=r['post']['B'],
+                 gA=g['A'] or dict(printer=False), gB=g['B'] or dict(printer=False), it=g['it'], cit=g['cit'], it_index=g['it_index'])
+        rows.append((json.dumps(f), dict(kind='gdb', cfg=[label])))
+    if ngdb == 0:
+        raise RuntimeError('gdb produced no checkpoint (%s): %s' % (label, p.stdout.decode()[-1500:]))
+    return rows
+
+
+def c20(tier, seed):
+    import suites
+    import random
+    rnd = random.Random(seed * 17 + 1)
+    n = 120 if tier == 'quick' else 1500
+    cfgs = [('N=2 class-type elements', suites.one(2), suites.drv(2, 0, elem=suites.NT)),
+            ('N=0 int elements, std::allocator', suites.one(0, IsStd=True), suites.drv(0, 3, elem=suites.INT, ALLOC=0)),
+            ('N=3,2 trivially copyable class, two containers', suites.two(3, 2, **suites.traits_mc(0, 1, 0, 0)), suites.drv(3, 2, elem=suites.TRIV, POCMA=1))]
+    if tier != 'quick':
+        cfgs += [('N=1 throwing-move class', suites.one(1, nothrow=False), suites.drv(1, 1, elem=suites.TM)),
+                 ('N=2,2 two containers, class type', suites.two(2, 2, **suites.traits_mc(0, 0, 1, 0)), suites.drv(2, 2, elem=suites.NT, POCS=1)),
+                 ('N=2 class type, clang++ debug info', suites.one(2), suites.drv(2, 0, elem=suites.NT, cxx='clang++'))]
+    wd = os.path.join(P.CACHE, 'c20', P.sha('c20', tier, seed, P.header_sha(), P.spec_sha(), P.file_sha(os.path.join(P.HARNESS, 'driver.cpp')),
+                                             P.file_sha(os.path.join(P.ROOT, 'lib', 'gdb_script.py'))))
+    os.makedirs(wd, exist_ok=True)
+    tasks = []
+    for (label, mc, dr) in cfgs:
+        st = P.gen_stimuli(mc)
+        lines = open(st['path']).readlines()
+        lines = [lines[i] for i in sorted(rnd.sample(range(len(lines)), min(n, len(lines))))]
+        tasks.append((label, lines, dr, wd))
+    rows = [r for rs in _run_many(gdb_run, tasks) for r in rs]
+    res = facts_result([r[0] for r in rows], [r[1] for r in rows], 'gdb pretty-printer views at %d checkpoints (%s)' % (len(rows), [c[0] for c in cfgs]), 'gdb')
+    shutil.rmtree(wd, ignore_errors=True)
+    return res
+
+
 EXTRA = {
     'C19': [c19],
     'C18': [c18_table],
     'C13': [c13_facts],
+    'C17': [c17],
+    'C08': [c08],
+    'C20': [c20],
 }
 
 
